@@ -3,6 +3,7 @@ from __future__ import annotations
 
 from collections import Counter
 import hashlib
+import inspect
 import json
 import os
 import random
@@ -245,6 +246,40 @@ class Taps:
         self.missing: List[str] = []
         self.installed: List[str] = []
 
+    def _adapt(self, orig: Callable, wrapped: Callable, where: str, tapname: str) -> Optional[Callable]:
+        """A wrapper that spells out the tapped function's parameters must not turn another *call form* into an error of
+        its own: calls are bound with the tapped function's own signature (its defaults applied) and handed to the wrapper
+        in canonical form; a call the function itself would reject goes to the function untouched. A tapped function whose
+        parameter list no longer has the shape the wrapper was written for is not tapped at all (reported as missing: the
+        run is then inconclusive for the counters that tap decides, never an alarm)."""
+        try:
+            so, sw = inspect.signature(orig), inspect.signature(wrapped)
+        except (TypeError, ValueError):
+            return wrapped
+        P = inspect.Parameter
+        if any(p.kind in (P.VAR_POSITIONAL, P.VAR_KEYWORD) for p in sw.parameters.values()):
+            return wrapped  # passes the call through as it came
+        pos_o = [p for p in so.parameters.values() if p.kind in (P.POSITIONAL_ONLY, P.POSITIONAL_OR_KEYWORD)]
+        pos_w = [p for p in sw.parameters.values() if p.kind in (P.POSITIONAL_ONLY, P.POSITIONAL_OR_KEYWORD)]
+        kw_o = sorted(p.name for p in so.parameters.values() if p.kind == P.KEYWORD_ONLY)
+        kw_w = sorted(p.name for p in sw.parameters.values() if p.kind == P.KEYWORD_ONLY)
+        if len(pos_o) != len(pos_w) or kw_o != kw_w or any(p.kind in (P.VAR_POSITIONAL, P.VAR_KEYWORD) for p in so.parameters.values()):
+            self.missing.append(f"{where}: parameter list changed {so} (tap written for {sw})")
+            self.ctx.count(f"{tapname}.missing")
+            return None
+
+        def outer(*args: Any, **kwargs: Any) -> Any:
+            try:
+                b = so.bind(*args, **kwargs)
+            except TypeError:
+                return orig(*args, **kwargs)
+            b.apply_defaults()
+            return wrapped(*b.args, **b.kwargs)
+
+        outer.__name__ = getattr(orig, "__name__", "tap")
+        outer.__doc__ = getattr(orig, "__doc__", None)
+        return outer
+
     def fn(self, module: Any, name: str, factory: Callable[[Callable], Callable], tapname: Optional[str] = None) -> None:
         tapname = tapname or name
         orig = getattr(module, name, None)
@@ -252,7 +287,9 @@ class Taps:
             self.missing.append(f"{module.__name__}.{name}")
             self.ctx.count(f"{tapname}.missing")
             return
-        wrapped = factory(orig)
+        wrapped = self._adapt(orig, factory(orig), f"{module.__name__}.{name}", tapname)
+        if wrapped is None:
+            return
         wrapped.__wrapped__ = orig  # type: ignore[attr-defined]
         n_alias = 0
         for modname, mod in list(sys.modules.items()):
@@ -279,7 +316,9 @@ class Taps:
         is_static = isinstance(raw, staticmethod)
         is_class = isinstance(raw, classmethod)
         orig = raw.__func__ if (is_static or is_class) else raw
-        wrapped = factory(orig)
+        wrapped = self._adapt(orig, factory(orig), f"{cls.__name__}.{name}", tapname)
+        if wrapped is None:
+            return
         wrapped.__wrapped__ = orig  # type: ignore[attr-defined]
         new = staticmethod(wrapped) if is_static else classmethod(wrapped) if is_class else wrapped
         setattr(cls, attr, new)
